@@ -170,9 +170,13 @@ impl MainState {
     }
 
     pub(crate) async fn remove_user(&self, conn_state: &ConnState) {
-        if let Some(ref nick) = conn_state.user_state.nick {
-            let mut state = self.state.write().await;
-            state.remove_user(nick);
+        // only authenticated connection owns user with its nick. the nick of not
+        // authenticated connection can be used by other (registered) user.
+        if conn_state.user_state.authenticated {
+            if let Some(ref nick) = conn_state.user_state.nick {
+                let mut state = self.state.write().await;
+                state.remove_user(nick);
+            }
         }
     }
 
